@@ -169,7 +169,7 @@ def run_history(prop, case, r, full_reopen=True, check_handles=False, post=None)
     seed, hist = case["seed"], case["ops"]
     hs = case.get("h") or [None] * len(hist)
     m = seed_model(seed)
-    s = O.Session(build=SEEDS[seed])
+    s = O.Session(build=SEEDS[seed], twin=bool(case.get("twin")))
     s.idmap = {}
     try:
         if post is not None:
@@ -221,6 +221,12 @@ def run_history(prop, case, r, full_reopen=True, check_handles=False, post=None)
                 if post(r, s, m_prev, m, op, tk, prev_map) is False:
                     return
         r.states.add(jhash(got))
+        tw = s.twin_changed()
+        if tw is not None:
+            r.viol("%s|%s|%s|second-open-file-changed" % (prop, opsig(hist[-1]), tk),
+                   "another file open in the same process (built from the same seed) changed while the history ran on "
+                   "this file: %s" % "; ".join(tw[:4]), {"diff": tw})
+            return
         # end of history: close, reopen read-only and read-write
         before = walker.walk(s.f)
         for mode in ("ro", "rw"):
